@@ -101,6 +101,16 @@ def run(ctx, prog):
                         ('TryFrom<&str>', r'timestamp::<impl at [^>]*>::try_from$', r'^&(\'_ )?str'),
                         ('TryFrom<String>', r'timestamp::<impl at [^>]*>::try_from$', r'^(\w+::)*String'),
                         ('serde', r'timestamp::<impl at [^>]*>::try_from$', r'ProvisionalTimestamp')):
+        cands = prog.find(rx, sig=sig) if hasattr(prog, 'find') else []
+        if nm == 'serde' and not cands:
+            # the validating conversion serde is routed through (`try_from = "ProvisionalTimestamp"`) is gone: a candidate, to be
+            # confirmed natively (JSON must yield exactly what parse yields)
+            from replay import run_replay
+            rep = R('[parse-serde]')
+            res = run_replay(rep)
+            ctx.add(Ob('serde/delegates-to-parse', 'M', VIOLATED if res.get('reproduced') else INCONCLUSIVE,
+                       detail='no conversion from the provisional serde form through Timestamp::parse in the MIR; native: %s' % res.get('detail', '')[:200], replay=rep))
+            continue
         f = prog.one(rx, sig=sig)
         paths, ex = A.paths(f)
         A.require('%s/delegates-to-parse' % nm, [p for p in paths if p.kind == 'return'],
